@@ -528,12 +528,31 @@ where
     }
 }
 
-/// Read-only access to the private representation, for verification harnesses only.
+/// Direct construction from, and read-only access to, the private representation, for verification
+/// harnesses only.
 #[cfg(brood_verif)]
 impl<R> Archetypes<R>
 where
     R: Registry,
 {
+    pub(crate) fn verif_from_parts(
+        raw_archetypes: RawTable<Archetype<R>>,
+        type_id_lookup: HashMap<TypeId, archetype::IdentifierRef<R>, FnvBuildHasher>,
+        foreign_identifier_lookup: HashMap<
+            &'static [u8],
+            archetype::IdentifierRef<R>,
+            FnvBuildHasher,
+        >,
+    ) -> Self {
+        Self {
+            raw_archetypes,
+            hash_builder: FnvBuildHasher::default(),
+
+            type_id_lookup,
+            foreign_identifier_lookup,
+        }
+    }
+
     pub(crate) fn verif_raw(
         &self,
     ) -> (
